@@ -105,7 +105,7 @@ def execute(hv, cases, runs_for, screen=None, nworkers=None, env=None):
 def claim_of(run, result):
     """What the call claimed when it came back (see BFTrace.tla)."""
     if "died" in result:
-        if result["died"] == "SIGABRT" and run.get("alloc") in ("fail", "failtape"):
+        if result["died"] == "SIGABRT" and run.get("alloc") in ("fail", "failtape", "failmmap"):
             return "aborted", 0, "died:SIGABRT"         # the allocation-failure abort (C17)
         return "crashed", 0, "died:" + result["died"]
     if "hung" in result:
@@ -128,7 +128,7 @@ def claim_of(run, result):
         if result.get("fault"):
             return "stopped", 0, ret
         return "unfinished", (1 if run.get("budget", 0) >= UNLIMITED else 0), ret
-    if ret.startswith("panic") and run.get("alloc") in ("fail", "failtape"):
+    if ret.startswith("panic") and run.get("alloc") in ("fail", "failtape", "failmmap"):
         return "aborted", 0, ret
     return "crashed", 0, ret
 
